@@ -35,7 +35,7 @@ var c07Dims = []struct {
 	Name string
 	Vals []string
 }{
-	{"spec", []string{"null-node", "null-branch", "null-branching", "null-branches", "unknown-target", "unknown-interpreter", "unknown-branchtype", "unknown-patternsyntax", "nonstring-source", "action-on-message-node", "empty-doc", "wrong-typed-nodes", "nodes-null", "no-error-node", "custom-error-node", "bad-json-pattern", "null-guard", "null-action", "null-pattern", "scalar-pattern", "empty-target", "not-compiled", "array-patterns"}},
+	{"spec", []string{"null-node", "null-branch", "null-branching", "null-branches", "unknown-target", "unknown-interpreter", "unknown-branchtype", "unknown-patternsyntax", "nonstring-source", "action-on-message-node", "empty-doc", "wrong-typed-nodes", "nodes-null", "no-error-node", "custom-error-node", "bad-json-pattern", "null-guard", "null-action", "null-pattern", "scalar-pattern", "empty-target", "not-compiled", "array-patterns", "paramspecs-odd", "boot-toob", "meta-fields"}},
 	{"state", []string{"nil-bindings", "permanent", "unknown-node", "empty-node-name", "at-error-node", "reloaded-after-failure", "in-memory-after-failure"}},
 	{"msg", []string{"null", "scalar", "deep", "none", "string-with-question-mark", "go-typed"}},
 	{"ctl", []string{"nil", "limit-zero", "limit-negative", "breakpoint", "nil-breakpoints-huge-limit"}},
@@ -250,6 +250,19 @@ func c07Build(cs c07Case) (as *rstep.ASpec, spec *core.Spec, loadErr error, appl
 			spec.Nodes["act"].Action, spec.Nodes["act"].ActionSource = nil, nil
 		case "null-pattern":
 			spec.Nodes["start"].Branches.Branches[0].Pattern = nil
+		case "paramspecs-odd":
+			spec.ParamSpecs = map[string]core.ParamSpec{}
+			for name, d := range c07ParamSpecs() {
+				js, _ := json.Marshal(d)
+				var ps core.ParamSpec
+				json.Unmarshal(js, &ps)
+				spec.ParamSpecs[name] = ps
+			}
+		case "boot-toob":
+			spec.BootSource = &core.ActionSource{Interpreter: "ecmascript", Source: "throw new Error('boot');"}
+			spec.ToobSource = &core.ActionSource{Source: "return null;"}
+		case "meta-fields":
+			spec.Uses, spec.Version, spec.Id, spec.Doc, spec.NoNewMachines = []string{"", "timers", ""}, "?v", "", "?doc", true
 		}
 		return as, spec, nil, true
 	}
@@ -314,6 +327,14 @@ func c07Build(cs c07Case) (as *rstep.ASpec, spec *core.Spec, loadErr error, appl
 		actn["action"] = nil
 	case "null-pattern":
 		branching("start")["branches"].([]interface{})[0].(map[string]interface{})["pattern"] = nil
+	case "paramspecs-odd":
+		doc[k("paramSpecs")] = c07ParamSpecs()
+	case "boot-toob":
+		doc["boot"] = M{"interpreter": "ecmascript", "source": "throw new Error('boot');"}
+		doc["toob"] = M{"source": "return null;"}
+	case "meta-fields":
+		doc["uses"], doc["version"], doc["id"], doc["doc"] = []interface{}{"", "timers", nil}, "?v", "", "?doc"
+		doc[k("noNewMachined")] = true
 	}
 	spec = &core.Spec{}
 	switch cs.Base {
@@ -326,6 +347,23 @@ func c07Build(cs c07Case) (as *rstep.ASpec, spec *core.Spec, loadErr error, appl
 		loadErr = yaml2.Unmarshal([]byte(rstep.YAML(doc)), spec)
 	}
 	return as, spec, loadErr, true
+}
+
+// c07ParamSpecs: parameter specifications as documents in the wild have them - consistent, inconsistent,
+// empty, with defaults of every shape (also arrays with holes).  Nothing in the engine has to honour them,
+// and a Compile that refuses some of them is fine; a panic is not.
+func c07ParamSpecs() M {
+	return M{
+		"plain":    M{"primitiveType": "string", "default": "den"},
+		"rooms":    M{"primitiveType": "string", "isArray": true, "default": []interface{}{"den", nil}},
+		"levels":   M{"primitiveType": "number", "maxCard": 3.0, "default": []interface{}{nil, 1.0, []interface{}{nil}}},
+		"inverted": M{"primitiveType": "bool", "minCard": 5.0, "maxCard": -1.0, "default": nil},
+		"nested":   M{"primitiveType": "", "isArray": true, "default": M{"k": []interface{}{nil}}, "predicate": M{"?": nil}},
+		"advice":   M{"advisory": true, "optional": true, "default": []interface{}{}},
+		"empty":    M{},
+		"":         M{"primitiveType": "no-such-type", "default": 7.0, "semanticType": "?x"},
+		"hole":     nil,
+	}
 }
 
 type c07Result struct {
